@@ -92,22 +92,27 @@ func zzInvPag(s *BufferedPaginatedStore) bool {
 	return ok
 }
 
-// abstraction: weight held at index p
+// abstraction: weight held at index p = page cell at p (pages cover disjoint index ranges, so this is
+// a selection, not a sum) + number of buffered entries equal to p
 func zzAbsPag(s *BufferedPaginatedStore, p int) float64 {
-	v := 0.0
-	for _, b := range s.buffer {
-		v += zzvIteF64(b == p, 1, 0)
-	}
+	cell := 0.0
 	for slot, pg := range s.pages {
 		if len(pg) == 0 {
 			continue
 		}
 		first := (s.minPageIndex + slot) << 5
 		for l, c := range pg {
-			v += zzvIteF64(p == first+l, c, 0)
+			cell = zzvIteF64(p == first+l, c, cell)
 		}
 	}
-	return v
+	if len(s.buffer) == 0 {
+		return cell
+	}
+	n := 0.0
+	for _, b := range s.buffer {
+		n += zzvIteF64(b == p, 1, 0)
+	}
+	return cell + n
 }
 func zzTotalPag(s *BufferedPaginatedStore) float64 {
 	v := float64(len(s.buffer))
